@@ -15,4 +15,4 @@ bad = common.lint_coq()
 if bad:
     print('LINT', bad); sys.exit(1)
 PY
-cd coq && timeout 3000 make -j16 2>&1 | tail -5
+cd coq && ulimit -v 12000000 && timeout 3000 make -j16 2>&1 | tail -5
